@@ -664,6 +664,84 @@ pub fn check_edge(env: &Env, c: &EdgeLit, st: &mut Stats) -> CaseResult {
     }
 }
 
+/// time-only literals with a named zone, read on days when that zone's clocks change: what
+/// "today" is comes from the context's clock, so the clock is part of the case
+#[derive(Clone, Debug, Serialize, Deserialize)]
+pub struct ClockLit {
+    pub now: u8,
+    pub zone: u8,
+    pub h: u32,
+    pub mi: u32,
+    pub sec: Option<u32>,
+}
+
+const CLOCKS: [&str; 12] = [
+    "2021-11-07T12:00:00+00:00",
+    "2021-03-14T12:00:00+00:00",
+    "2021-10-31T00:30:00+00:00",
+    "2021-03-28T00:30:00+00:00",
+    "2021-04-04T00:00:00+00:00",
+    "2021-10-03T00:00:00+00:00",
+    "2018-11-04T12:00:00+00:00",
+    "2018-02-18T12:00:00+00:00",
+    "2016-08-02T19:33:19+00:00",
+    "2021-11-07T08:30:00+00:00",
+    "2021-03-14T09:59:59+00:00",
+    "1999-12-31T23:59:59+00:00",
+];
+const CLOCK_ZONES: [&str; 10] = [
+    "US/Pacific", "America/New_York", "Europe/London", "Europe/Paris", "Australia/Sydney", "America/Sao_Paulo", "Asia/Tokyo", "UTC", "Australia/Lord_Howe", "America/St_Johns",
+];
+
+pub struct ClockEnv {
+    pub ctx: std::cell::RefCell<Context>,
+    pub known: BTreeSet<String>,
+}
+
+pub fn check_clock(env: &ClockEnv, c: &ClockLit, st: &mut Stats) -> CaseResult {
+    use chrono::DateTime;
+    let now = CLOCKS[c.now as usize % CLOCKS.len()];
+    let zone = CLOCK_ZONES[c.zone as usize % CLOCK_ZONES.len()];
+    let text = match c.sec {
+        Some(s) => format!("#{:02}:{:02}:{:02} {}#", c.h, c.mi, s, zone),
+        None => format!("#{:02}:{:02} {}#", c.h, c.mi, zone),
+    };
+    let shown_case = format!("{} (clock {})", text, now);
+    st.eval();
+    st.class("time_only_zoned_literal_on_a_chosen_day");
+    st.nontrivial(&shown_case);
+    let mut ctx = env.ctx.borrow_mut();
+    let t = DateTime::parse_from_rfc3339(now).map_err(|e| format!("[infrastructure] {}", e))?;
+    ctx.set_time(t.into());
+    let out = rinkx::eval_line(&ctx, &text);
+    let known = |st: &mut Stats, sig: &str, detail: String| -> CaseResult {
+        if env.known.contains(sig) {
+            st.known(sig, &shown_case);
+            Ok(())
+        } else {
+            Err(format!("[{}] `{}`: {}", sig, shown_case, detail))
+        }
+    };
+    match out {
+        Out::Panic(p) => known(st, &panic_signature(&p), format!("panicked: {}", p)),
+        Out::Error(_) => {
+            st.class("clock_literal_refused");
+            Ok(())
+        }
+        out => match date_of(out) {
+            Ok((_, _, f, shown)) => {
+                // the wall-clock time of the reply is the one that was written
+                if f.3 != c.h || f.4 != c.mi || f.5 != c.sec.unwrap_or(0) {
+                    return known(st, "time-only-literal-wrong-wall-clock", format!("read as {}", shown));
+                }
+                st.class("clock_literal_read");
+                Ok(())
+            }
+            Err(e) => known(st, "clock-literal-other-reply", e),
+        },
+    }
+}
+
 pub fn run(cx: &Cx) -> Report {
     let mut rep = Report::new(RULE);
     rep.assumptions = vec![
@@ -696,11 +774,30 @@ pub fn run(cx: &Cx) -> Report {
         |c| json!({"edge": c}),
     ));
     rep.mark(cx, "literal-edges");
+    let k = known.clone();
+    rep.absorb(par_proptest(
+        cx,
+        "clock-dependent-literals",
+        cx.tier.pick(12_000, 300_000),
+        || {
+            (0u8..CLOCKS.len() as u8, 0u8..CLOCK_ZONES.len() as u8, prop_oneof![3 => 0u32..4, 1 => 0u32..24], 0u32..60, proptest::option::weighted(0.3, 0u32..60))
+                .prop_map(|(now, zone, h, mi, sec)| ClockLit { now, zone, h, mi, sec })
+        },
+        move || ClockEnv { ctx: std::cell::RefCell::new(rinkx::new_ctx()), known: k.clone() },
+        |env, c, st| check_clock(env, c, st),
+        |c| json!({"clock": c}),
+    ));
+    rep.mark(cx, "clock-dependent-literals");
     rep
 }
 
 pub fn replay(cx: &Cx, _phase: &str, case: &J, st: &mut Stats) -> CaseResult {
     let env = mk_env(cx.known.clone());
+    if case.get("clock").is_some() {
+        let c: ClockLit = serde_json::from_value(case["clock"].clone()).map_err(|e| format!("bad case: {}", e))?;
+        let env = ClockEnv { ctx: std::cell::RefCell::new(rinkx::new_ctx()), known: cx.known.clone() };
+        return check_clock(&env, &c, st);
+    }
     if case.get("edge").is_some() {
         let c: EdgeLit = serde_json::from_value(case["edge"].clone()).map_err(|e| format!("bad case: {}", e))?;
         return check_edge(&env, &c, st);
